@@ -64,6 +64,7 @@ func cloneNonrev(p *revocation.Proof) *revocation.Proof {
 	if p.SignedAccumulator != nil {
 		s := *p.SignedAccumulator
 		s.Accumulator = nil // as after transport: the signature has to be checked again
+		s.Data = append([]byte{}, s.Data...)
 		sacc = &s
 	}
 	return &revocation.Proof{Cr: cp(p.Cr), Cu: cp(p.Cu), Nu: cp(p.Nu), Challenge: cp(p.Challenge), Responses: resp, SignedAccumulator: sacc}
